@@ -157,6 +157,34 @@ def as_triangles(arr, k):
     return [[[int(x) for x in c] for c in tr] for tr in a.tolist()]
 
 
+def check_bound(doc, case, tris, pp, why):
+    """the same primitive reached through the scene (bound to the identity transform) gives the same
+    triangles; evaluated only when there is at least one triangle"""
+    kind, k = case['kind'], case['nind']
+    if not tris:
+        return
+    try:
+        bg = list(doc.scene.objects('geometry'))[0]
+        bp = list(bg.primitives())[0]
+        bts = bp.triangleset() if kind in ('polylist', 'polygons') else bp
+        bidx = as_triangles(bts.index, k)
+        v, nn, t = offsets_of(case)
+        if bidx != tris:
+            return why('bound', 'index', 'bound triangle set has index %r, unbound %r' % (bidx, tris))
+        for ti, tr in enumerate(bts):
+            for c in range(3):
+                if [float(x) for x in tr.vertices[c]] != pos_of(tris[ti][c][v[0]]):
+                    return why('bound', 'vertex', 'bound triangle %d corner %d: vertex is not that of its row' % (ti, c))
+        if pp is not None and kind in ('polylist', 'polygons'):
+            for pi in range(len(bp)):
+                got = [[int(x) for x in tr.indices] for tr in bp[pi].triangles()]
+                want = [[c[0] for c in tr] for tr in pp[pi]]
+                if got != want:
+                    return why('bound', 'Polygon.triangles', 'bound polygon %d triangulates to %r, unbound %r' % (pi, got, want))
+    except Exception as e:  # noqa
+        return why('bound', type(e).__name__, 'triangles through the scene raised %r' % (e,))
+
+
 def run_case_guarded(case):
     try:
         return run_case(case)
@@ -202,6 +230,8 @@ def run_case(case):
             why('winding', 'index', 'triangles %r, expected (up to order and rotation) %r' % (got, exp))
         else:
             check_attached(case, prim, why)
+        if not fails:
+            check_bound(doc, case, out['index'], None, why)
         return out
 
     # polylist / polygons
@@ -286,6 +316,8 @@ def run_case(case):
         else:
             if not bad and Counter(canon(x) for g in pp for x in g) != Counter(canon(project(x)) for x in got):
                 why('per-polygon', 'agrees', 'per-polygon triangles differ from the whole-primitive triangulation')
+    if not fails:
+        check_bound(doc, case, out['tri_index'], out['pp'], why)
     return out
 
 
